@@ -332,11 +332,18 @@ class KdqStreamDriver(Driver):
         return [
             {"window_size": 2, "persistence": 0.5, "alpha": 0.6, "bootstrap_samples": 8, "count_ubound": 1, "_container": "DataFrame2"},
             {"window_size": 3, "persistence": 0.0, "alpha": 0.6, "bootstrap_samples": 8, "count_ubound": 1, "_container": "int"},
+            # integral values arrive as integer arrays, the fractional one as a float array: epochs of different dtypes
+            {"window_size": 2, "persistence": 0.0, "alpha": 0.6, "bootstrap_samples": 8, "count_ubound": 1, "_container": "mixed"},
         ]
+
+    def alphabet(self, p):
+        return [0, 1.5, 5] if p.get("_container") == "mixed" else list(self.symbols)
 
     def feed(self, det, sym, p):
         c = p.get("_container")
-        if c == "DataFrame2":  # two named features, the second one a function of the first
+        if c == "mixed":
+            det.update(np.array([[int(sym)]]) if float(sym).is_integer() else np.array([[float(sym)]]))
+        elif c == "DataFrame2":  # two named features, the second one a function of the first
             det.update(pd.DataFrame({"a": [float(sym)], "b": [float(sym % 2)]}))
         elif c == "int":
             det.update(np.array([[int(sym)]]))
